@@ -19,6 +19,8 @@
 //     This is what ArchiveInfoList.validate needs.  A method of a struct may range in the same way over a
 //     field that is a slice of structs (structSliceFields), which then becomes a list parameter behind the
 //     integer fields, and the loop's Fixpoint returns what the function returns: Header.ExpectedFileSize.
+//     A method without result on a slice of structs whose loop rewrites fields of the current element
+//     (a := &aa[i]; a.f = e) is rendered as the function returning the new list: ArchiveInfoList.fillOffset.
 //     Every arithmetic result and every conversion is wrapped to the width of its Go type (u32, i32,
 //     u64, i64; int and uint are 64 bits wide); / and % are Z.quot and Z.rem.
 //     A receiver of struct type contributes the parameters listed in structFields.
@@ -52,6 +54,7 @@ var kernel = []string{
 	"Header.Size",
 	"ArchiveInfo.validate", "ArchiveInfoList.validate",
 	"Header.ExpectedFileSize",
+	"ArchiveInfoList.fillOffset",
 }
 
 type fakeImporter struct{ pkgs map[string]*types.Package }
@@ -108,6 +111,8 @@ type tr struct {
 	slice    string            // name of a receiver of slice type, "" if none
 	fname    string            // the function being translated
 	resType  string            // "Z" or "bool"
+	mutMode  bool              // no result: the function rewrites the elements of its slice receiver; rendered as the new list
+	cur      []string          // mutMode: the Coq names of the current element's fields
 	pre      strings.Builder   // definitions to be written out before it (the Fixpoint of its loop)
 }
 
@@ -360,6 +365,9 @@ func (t *tr) rangeLoop(s *ast.RangeStmt, rest []ast.Stmt, indent string) string 
 	}
 	key, ok1 := s.Key.(*ast.Ident)
 	val, ok2 := s.Value.(*ast.Ident)
+	if s.Value == nil && t.mutMode {
+		val, ok2 = &ast.Ident{Name: "cur_"}, true
+	}
 	if !ok1 || !ok2 || val.Name == "_" {
 		fail("range statement at %s", t.fset.Position(s.Pos()))
 	}
@@ -385,8 +393,13 @@ func (t *tr) rangeLoop(s *ast.RangeStmt, rest []ast.Stmt, indent string) string 
 	for _, f := range structFields[sv.typ] {
 		names = append(names, sv.fields[f])
 	}
+	t.cur = names
 	t.loop = &loopCtx{index: key.Name, rest: "rest", after: after, again: func() string {
-		return "(" + fname + " rest (i64 (v_" + key.Name + " + 1)) " + strings.Join(carried[1:], " ") + ")"
+		next := "(" + fname + " rest (i64 (v_" + key.Name + " + 1)) " + strings.Join(carried[1:], " ") + ")"
+		if t.mutMode {
+			return "(" + strings.Join(names, ", ") + ") :: " + next
+		}
+		return next
 	}}
 	body := t.stmts(s.Body.List, "    ")
 	t.loop = nil
@@ -451,6 +464,9 @@ func (t *tr) stmts(l []ast.Stmt, indent string) string {
 		if t.loop != nil {
 			return t.loop.again() // the end of the loop body: on to the next element
 		}
+		if t.mutMode {
+			return "[]" // behind the loop: nothing more is rewritten
+		}
 		fail("a path without return")
 	}
 	switch s := l[0].(type) {
@@ -473,6 +489,18 @@ func (t *tr) stmts(l []ast.Stmt, indent string) string {
 	case *ast.RangeStmt:
 		return t.rangeLoop(s, l[1:], indent)
 	case *ast.AssignStmt:
+		if se, isSel := s.Lhs[0].(*ast.SelectorExpr); isSel && s.Tok == token.ASSIGN && len(s.Lhs) == 1 && len(s.Rhs) == 1 && t.mutMode && t.loop != nil {
+			// a.f = e  on the current element: a new binding of that field
+			if id, ok := se.X.(*ast.Ident); ok {
+				if sv, ok := t.structs[id.Name]; ok {
+					if fn, ok := sv.fields[se.Sel.Name]; ok {
+						w := wrapOf(t.typeOf(se))
+						return "let " + fn + " := " + wrap(w, t.expr(s.Rhs[0])) + " in\n" + indent + t.stmts(l[1:], indent)
+					}
+				}
+			}
+			fail("field assignment at %s", t.fset.Position(s.Pos()))
+		}
 		if s.Tok != token.DEFINE && len(s.Lhs) == 1 && len(s.Rhs) == 1 {
 			// x = e, x += e, ... on a local integer variable: a new binding that shadows the old one
 			return "let " + t.reassign(s) + " in\n" + indent + t.stmts(l[1:], indent)
@@ -483,6 +511,22 @@ func (t *tr) stmts(l []ast.Stmt, indent string) string {
 		id, ok := s.Lhs[0].(*ast.Ident)
 		if !ok {
 			fail("assignment target at %s", t.fset.Position(s.Pos()))
+		}
+		if u, isU := s.Rhs[0].(*ast.UnaryExpr); isU && u.Op == token.AND && t.loop != nil && t.mutMode {
+			// a := &aa[i] inside the loop over aa: a names the current element
+			if ix, ok := u.X.(*ast.IndexExpr); ok {
+				sl, ok1 := ix.X.(*ast.Ident)
+				iv, ok2 := ix.Index.(*ast.Ident)
+				if ok1 && ok2 && sl.Name == t.slice && iv.Name == t.loop.index {
+					sv := svar{typ: t.structs["["+t.slice+"]"].typ, fields: map[string]string{}}
+					for j, f := range structFields[sv.typ] {
+						sv.fields[f] = t.cur[j]
+					}
+					t.structs[id.Name] = sv
+					return t.stmts(l[1:], indent)
+				}
+			}
+			fail("address expression at %s", t.fset.Position(s.Pos()))
 		}
 		if ix, isIx := s.Rhs[0].(*ast.IndexExpr); isIx && t.loop != nil {
 			// x := aa[i+1] inside the loop over aa: the element after the current one
@@ -653,11 +697,14 @@ func (w *world) ensure(k string) (ok bool) {
 			params = append(params, "v_"+n.Name)
 		}
 	}
-	if fd.Type.Results == nil || len(fd.Type.Results.List) != 1 {
-		fail("result is not one value")
-	}
 	resType := "Z"
-	if rt := info.TypeOf(fd.Type.Results.List[0].Type); rt.String() == "error" {
+	if fd.Type.Results == nil && t.slice != "" && t.recv == "" {
+		t.mutMode = true
+		tuple := strings.TrimSuffix(strings.Repeat("Z * ", len(structFields[t.structs["["+t.slice+"]"].typ])), " * ")
+		resType = "list (" + tuple + ")"
+	} else if fd.Type.Results == nil || len(fd.Type.Results.List) != 1 {
+		fail("result is not one value")
+	} else if rt := info.TypeOf(fd.Type.Results.List[0].Type); rt.String() == "error" {
 		t.errMode, resType = true, "bool" // the boolean "it returns nil"
 	} else if !isInteger(rt) {
 		fail("result is not one integer")
